@@ -103,6 +103,15 @@ theorem reject_class_raw (P : RawPlatform) (hP : P.Sane) (be4 be6 : Backend) (s 
       cases r <;> cases hv
   · exact hx
 
+/-- a non-trivial instance: the observed platform (sane), mixed back ends, a text that glibc
+    refuses with OSError and fbsocket with ValueError -/
+example (x : Exn) (h : ipAddressRaw std .platform .fallback "1.2.3.4.5".toList none 0 = .error x) : x = .addrFormat :=
+  reject_class_raw std std_sane _ _ _ none 0 x (Or.inl rfl) (by decide) h
+
+example : ipAddressRaw std .platform .fallback "1.2.3.4.5".toList none 0 = .error .addrFormat ∧
+    std.aton "1.2.3.4.5".toList = .error .osError ∧ std.pton6 .fallback "1.2.3.4.5".toList = .error .valueError := by
+  decide
+
 /-- ValueError leaves the constructor exactly for '/' or an invalid version (any platform) -/
 theorem value_error_raw (P : RawPlatform) (hP : P.Sane) (be4 be6 : Backend) (s : List Char)
     (ver : Option Nat) (fl : Nat) :
@@ -305,6 +314,10 @@ theorem format_roundtrip (be4 be6 : Backend) (a : Addr) (ha : a.WF) (d : FmtArg)
       rw [(backend_irrelevant2 be4 be6 be4 be6').2.2.2.2 dd v hv']
     | noWordFmt => simp [ipFormat, FmtArg.hasWordFmt] at h
     | wordFmtOnly => simp [ipFormat, intToStr6Arg, h64, FmtArg.hasWordFmt] at h
+
+example : ipAddress2 .platform .fallback "0:0:0:0:0:ffff:102:304".toList (some 6) ZEROFILL = .ok ⟨6, 0xffff01020304⟩ :=
+  (format_roundtrip .platform .fallback ⟨6, 0xffff01020304⟩ (by unfold Addr.WF width; decide) (.dialect .full) _
+    (by decide) (some 6) (Or.inr rfl) ZEROFILL (by decide)).1
 
 example : ipFormat .fallback ⟨6, 0xffff01020304⟩ (.dialect .full) = .ok "0:0:0:0:0:ffff:102:304".toList ∧
     ipFormat .fallback ⟨6, 1⟩ .none = .ok "::1".toList ∧
